@@ -20,6 +20,8 @@ TopoConsBend).  Everything is quantified over ALL scenes (node lists, paths, axi
   bend_*            every interior EdgePoint has its BendConstraint unless both incident segments are
                     parallel to the scan line; its slack is the offset of the far end from the extension
                     of the reference segment
+  nonOverlap_*      the separation constraints the scan creates at NodeClose events are sound and - the scan-line
+                    chain lemma - transitively separate every pair of nodes sharing a scan line
   bendSatisfy_*, straightSatisfy_*, *_preserves_sides   the two rewrites keep the path's end points, remove
                     exactly the straightened bend / insert exactly the corner the segment touched, rebuild
                     the StraightConstraints of the new segments with `createStraight` (nothing transferable
@@ -31,12 +33,14 @@ import AdaptaVerif.Lemmas.TopoConsScan
 import AdaptaVerif.Lemmas.TopoConsGen
 import AdaptaVerif.Lemmas.TopoConsRewrite
 import AdaptaVerif.Lemmas.TopoConsBend
+import AdaptaVerif.Lemmas.TopoConsNonOverlap
 namespace AdaptaVerif.Props.C13Cons
 open AdaptaVerif.Model.TopoCons AdaptaVerif.Model.TopoTransfer AdaptaVerif.Check.Topo
 open AdaptaVerif.Lemmas.TopoConsScan (bOof bCof)
 open AdaptaVerif.Lemmas.TopoConsGen (triOf w0 w1 w2 w1' wSg pA pB pC pSg)
 open AdaptaVerif.Lemmas.TopoConsRewrite (SplitKeeps toFirstHalf)
 open AdaptaVerif.Lemmas.TopoConsBend (offLine)
+open AdaptaVerif.Lemmas.TopoConsNonOverlap (OpenAtClose Sep)
 
 /-! ### the scan -/
 
@@ -465,5 +469,52 @@ theorem bendSatisfy_preserves_sides {d : Nat} {st st' : EdgeSt} {i : Nat} {u v w
     (hvc : v.pos (conj d) = u.pos (conj d) + t * (w.pos (conj d) - u.pos (conj d))) (c0 : Rat) :
     SplitKeeps (u.pos d) (u.pos (conj d)) (w.pos d) (w.pos (conj d)) (v.pos d) (v.pos (conj d)) c0 :=
   AdaptaVerif.Lemmas.TopoConsRewrite.bendSatisfy_preserves_sides _h _hu _hv _hw h0 h1 hne hvs hvc c0
+
+/-! ### the non-overlap constraints of the scan -/
+
+/-- Every separation constraint `NodeClose::createNonOverlapConstraint` creates is between two nodes of the scene, the left one having the smaller centre, one of them still open when the other closes, with gap = half the two lengths + 1e-7. -/
+theorem nonOverlap_sound (d : Nat) (bC : Node → Node → Bool) (nodes : List Node) (c : NOC)
+    (hc : c ∈ nonOverlapClosed d bC nodes) :
+    c.left ∈ nodes ∧ c.right ∈ nodes ∧ c.left.id ≠ c.right.id ∧
+    c.left.r.centre d < c.right.r.centre d ∧
+    c.gap = (c.left.r.len d + c.right.r.len d) / 2 + noGapEps ∧
+    (OpenAtClose d bC c.right c.left ∨ OpenAtClose d bC c.left c.right) :=
+  AdaptaVerif.Lemmas.TopoConsNonOverlap.nonOverlap_sound d bC nodes c hc
+
+/-- ... so (nodes of positive height) their extents across the scan direction overlap strictly: only nodes that share a scan line are kept apart. -/
+theorem nonOverlap_sound_overlap (d : Nat) (bC : Node → Node → Bool) (nodes : List Node)
+    (hpos : ∀ n ∈ nodes, n.r.lo (conj d) < n.r.hi (conj d)) (c : NOC)
+    (hc : c ∈ nonOverlapClosed d bC nodes) :
+    c.left.r.lo (conj d) < c.right.r.hi (conj d) ∧ c.right.r.lo (conj d) < c.left.r.hi (conj d) ∧
+    max (c.left.r.lo (conj d)) (c.right.r.lo (conj d)) <
+      min (c.left.r.hi (conj d)) (c.right.r.hi (conj d)) :=
+  AdaptaVerif.Lemmas.TopoConsNonOverlap.nonOverlap_sound_overlap d bC nodes hpos c hc
+
+/-- A constraint holds at node positions `x` iff the two moved rectangles are at least 1e-7 apart in the scan axis. -/
+theorem noc_holds_iff_sep (d : Nat) (l r : Node) (x : Pos) : (mkNOC d l r).holds x ↔ Sep d x l r :=
+  AdaptaVerif.Lemmas.TopoConsNonOverlap.noc_holds_iff_sep d l r x
+
+/-- **The scan-line chain lemma.** The constraints between scan-line neighbours at NodeClose events transitively separate EVERY pair of nodes that share a scan line: if all generated constraints hold at `x` then any two nodes whose extents across the scan direction overlap strictly are at least 1e-7 apart in the scan axis (`hkeys` = the constructor's unique-key assertion, `hbC` = equal-position NodeClose events are processed in some order, `hw` = non-negative widths). -/
+theorem nonOverlap_complete (d : Nat) (bC : Node → Node → Bool) (nodes : List Node)
+    (hids : nodes.Pairwise (fun a b => a.id ≠ b.id))
+    (hw : ∀ n ∈ nodes, 0 ≤ n.r.len d)
+    (hkeys : ∀ m ∈ nodes, ∀ n ∈ nodes, m.id ≠ n.id → m.r.lo (conj d) < n.r.hi (conj d) →
+      n.r.lo (conj d) < m.r.hi (conj d) → m.r.centre d ≠ n.r.centre d)
+    (hbC : ∀ m ∈ nodes, ∀ n ∈ nodes, m.id ≠ n.id → m.r.hi (conj d) = n.r.hi (conj d) →
+      bC m n = true ∨ bC n m = true)
+    (x : Pos) (hx : ∀ c ∈ nonOverlapClosed d bC nodes, c.holds x)
+    (m n : Node) (hm : m ∈ nodes) (hn : n ∈ nodes) (hid : m.id ≠ n.id)
+    (hov : m.r.lo (conj d) < n.r.hi (conj d) ∧ n.r.lo (conj d) < m.r.hi (conj d))
+    (hc : m.r.centre d < n.r.centre d) :
+    (m.movedTo d x).r.hi d + noGapEps ≤ (n.movedTo d x).r.lo d :=
+  AdaptaVerif.Lemmas.TopoConsNonOverlap.nonOverlap_complete d bC nodes hids hw hkeys hbC x hx m n hm hn hid hov hc
+
+/-- The constraints are linear: satisfied at the initial positions and at the VPSC solution, they are satisfied at every point `solve()` may move to. -/
+theorem solve_move_keeps_nonOverlap (d : Nat) (bC : Node → Node → Bool) (nodes : List Node)
+    (ini fin : Pos) (α : Rat)
+    (hini : ∀ c ∈ nonOverlapClosed d bC nodes, c.holds ini)
+    (hfin : ∀ c ∈ nonOverlapClosed d bC nodes, c.holds fin) (h0 : 0 ≤ α) (h1 : α ≤ 1) :
+    ∀ c ∈ nonOverlapClosed d bC nodes, c.holds (AdaptaVerif.Model.Tri.posOnLine ini fin α) :=
+  AdaptaVerif.Lemmas.TopoConsNonOverlap.solve_move_keeps_nonOverlap d bC nodes ini fin α hini hfin h0 h1
 
 end AdaptaVerif.Props.C13Cons
